@@ -612,42 +612,55 @@ func (g *GcsEmu) handleGcsNewObjectResume(ctx context.Context, baseUrl HttpBaseU
 		return
 	}
 
-	if len(u.data) < int(byteRange.lo) {
-		g.gapiError(w, http.StatusBadRequest, "missing content")
-		return
-	}
-
-	// Apply the content to our stored data.
-	if byteRange.lo != -1 {
-		u.data = u.data[:byteRange.lo] // truncate a previous write if we've seen this range before
-	}
-	u.data = append(u.data, contents...)
-
-	// Are we done?
-	if byteRange.sz < 0 || len(u.data) < int(byteRange.sz) {
-		// Not finished; save the contents and tell the client to resume.
-		w.Header().Set("Range", fmt.Sprintf("bytes=0-%d", len(u.data)-1))
-		w.Header().Set("Content-Type", u.Object.ContentType)
-		if r.Header.Get("X-Guploader-No-308") == "yes" {
-			w.Header().Set("X-Http-Status-Code-Override", "308")
-			w.WriteHeader(http.StatusOK)
-		} else {
-			w.WriteHeader(http.StatusPermanentRedirect)
+	// Requests that name the same upload id all work on one pending upload: handle them one
+	// at a time (a client may re-send a chunk while the first copy is still being processed).
+	err = g.locks.Run(ctx, "upload:"+id, func(ctx context.Context) error {
+		if cur, err := g.uploadIds.GetIFPresent(id); err != nil || cur != found {
+			g.gapiError(w, http.StatusNotFound, "no such id")
+			return nil
 		}
-		return
-	}
 
-	// Done
-	meta, err := g.finishUpload(ctx, baseUrl, &u.Object, u.data, u.Object.Bucket, u.Conds)
+		if len(u.data) < int(byteRange.lo) {
+			g.gapiError(w, http.StatusBadRequest, "missing content")
+			return nil
+		}
+
+		// Apply the content to our stored data.
+		if byteRange.lo != -1 {
+			u.data = u.data[:byteRange.lo] // truncate a previous write if we've seen this range before
+		}
+		u.data = append(u.data, contents...)
+
+		// Are we done?
+		if byteRange.sz < 0 || len(u.data) < int(byteRange.sz) {
+			// Not finished; save the contents and tell the client to resume.
+			w.Header().Set("Range", fmt.Sprintf("bytes=0-%d", len(u.data)-1))
+			w.Header().Set("Content-Type", u.Object.ContentType)
+			if r.Header.Get("X-Guploader-No-308") == "yes" {
+				w.Header().Set("X-Http-Status-Code-Override", "308")
+				w.WriteHeader(http.StatusOK)
+			} else {
+				w.WriteHeader(http.StatusPermanentRedirect)
+			}
+			return nil
+		}
+
+		// Done
+		meta, err := g.finishUpload(ctx, baseUrl, &u.Object, u.data, u.Object.Bucket, u.Conds)
+		if err != nil {
+			g.gapiError(w, httpStatusCodeOf(err), err.Error())
+			return nil
+		}
+
+		g.uploadIds.Remove(id)
+		w.Header().Set("x-goog-generation", strconv.FormatInt(meta.Generation, 10))
+		w.Header().Set("X-Goog-Metageneration", strconv.FormatInt(meta.Metageneration, 10))
+		g.jsonRespond(w, meta)
+		return nil
+	})
 	if err != nil {
 		g.gapiError(w, httpStatusCodeOf(err), err.Error())
-		return
 	}
-
-	g.uploadIds.Remove(id)
-	w.Header().Set("x-goog-generation", strconv.FormatInt(meta.Generation, 10))
-	w.Header().Set("X-Goog-Metageneration", strconv.FormatInt(meta.Metageneration, 10))
-	g.jsonRespond(w, meta)
 }
 
 func (g *GcsEmu) finishUpload(ctx context.Context, baseUrl HttpBaseUrl, obj *storage.Object, contents []byte, bucket string, conds cloudstorage.Conditions) (*storage.Object, error) {
